@@ -46,7 +46,9 @@ fn object_line(kind: usize, slot: usize, t: i64, d: i64) -> String {
         // the last control point twice and a requested length beyond the path: the curve keeps its own length (70)
         9 => format!("{x},{y},{t_text},2,0,L|{}:{y}|{}:{y},2,140", x + 70, x + 70),
         // a slider without any further control point: its curve has length 0 whatever length is requested
-        _ => format!("{x},{y},{t_text},2,0,L,1,50"),
+        10 => format!("{x},{y},{t_text},2,0,L,1,50"),
+        // the same relative shape as kind 3 with another requested length
+        _ => format!("{x},{y},{t_text},2,0,L|{}:{y},1,35", x + 70),
     }
 }
 
@@ -266,7 +268,7 @@ fn check_map(spec: &Spec, d: i64, map: &HitObjects) -> Option<(String, String)> 
                 };
                 let kind_ok = matches!(
                     (&got.kind, kind),
-                    (HitObjectKind::Circle(_), 0 | 1 | 2 | 7 | 8) | (HitObjectKind::Slider(_), 3 | 4 | 9 | 10) | (HitObjectKind::Spinner(_), 5) | (HitObjectKind::Hold(_), 6)
+                    (HitObjectKind::Circle(_), 0 | 1 | 2 | 7 | 8) | (HitObjectKind::Slider(_), 3 | 4 | 9 | 10 | 11) | (HitObjectKind::Spinner(_), 5) | (HitObjectKind::Hold(_), 6)
                 );
                 if !kind_ok || got_x.is_some_and(|x| x != want_x) {
                     return Some((
@@ -312,6 +314,11 @@ fn check_map(spec: &Spec, d: i64, map: &HitObjects) -> Option<(String, String)> 
                 }
                 let mut gc = g.clone();
                 let dist = gc.path.curve().dist();
+                // the curve a decoded slider carries is the curve of ITS control points and requested length
+                let own = rosu_map::section::hit_objects::Curve::new(mode, g.path.control_points(), g.path.expected_dist(), &mut rosu_map::section::hit_objects::CurveBuffers::default());
+                if own.dist().to_bits() != dist.to_bits() || own.path() != gc.path.curve().path() {
+                    return Some(("slider-curve-not-its-own".into(), format!("object {i}: cached curve has distance {dist}, the curve of its own control points / length {:?} has {}", g.path.expected_dist(), own.dist())));
+                }
                 let spans = f64::from(g.repeat_count + 1);
                 let dur = spans * dist / v;
                 if !rel_close(gc.duration(), dur) {
@@ -477,7 +484,7 @@ fn check_spec(spec: &Spec, shifts: &[i64], acc: &mut Acc) {
             Err(e) => acc.violation(Violation::new("decode-failed", e, json!({"kind": "spec", "spec": spec.json(), "shift": d}))),
         }
     }
-    let sliders = spec.objects.iter().filter(|o| [3, 4, 9, 10].contains(&o.0)).count();
+    let sliders = spec.objects.iter().filter(|o| [3, 4, 9, 10, 11].contains(&o.0)).count();
     if sliders > 0 || spec.breaks > 0 {
         acc.nontrivial(&format!("{:?}", base.hit_objects));
     }
@@ -495,7 +502,7 @@ pub fn run(tier: Tier) -> i32 {
     let run = Run::new("C15", tier, "model_checking");
     let mut acc = Acc::new();
     run_witnesses("C15", &mut acc, &replay);
-    let obj_alpha: Vec<(usize, i64)> = (0..11).flat_map(|k| TIMES.iter().map(move |t| (k, *t))).collect();
+    let obj_alpha: Vec<(usize, i64)> = (0..12).flat_map(|k| TIMES.iter().map(move |t| (k, *t))).collect();
     let mut bounds = Vec::new();
     let plans: Vec<(usize, Vec<Vec<usize>>, Vec<u8>, Vec<usize>)> = if tier.thorough() {
         vec![
@@ -538,7 +545,7 @@ pub fn run(tier: Tier) -> i32 {
         }
     }
     let summary = Summary {
-        rule: "every map assembled from n object lines in ANY file order (11 object kinds x 5 times, each with a distinguishing \
+        rule: "every map assembled from n object lines in ANY file order (12 object kinds x 5 times, each with a distinguishing \
                position) x 8 break lists (incl. break end =, < and > an object start) x sets of <= 2 timing lines and one of 3 with sample settings A->B->A (sample points at \
                +4/+5/+6 ms, SV 0.1/0.5/2/10, two timing points) x modes x slider multipliers {0.4,1.4,3.6}: decoded objects must be \
                the stable sort of the raw objects, first combo-capable object after each break flagged, slider velocity and \
